@@ -169,7 +169,8 @@ type genState struct {
 	fidAt  []int    // 0 invalid
 	fidOp  []string // "no", "r", "w", "rw", "x"
 	fidRd  []bool   // a listing was started
-	pend   []any    // action awaiting its observation
+	par    []int    // parent of a linked node
+	nm     []string // its name
 }
 
 var modePool = []int{0o777, 0o755, 0o750, 0o700, 0o070, 0o007, 0o000, 0o644, 0o640, 0o604, 0o222, 0o444, 0o111, 0o711, 0o177, 0o707, 0o770, 0o333, 0o555, 0o666}
@@ -223,6 +224,15 @@ func (g *genState) absorb(a []any, o map[string]any) {
 		if ok {
 			n := toInt(a[1])
 			g.status[n], g.isdir[n], g.hasops[n] = 1, toBool(a[4]), toBool(a[8])
+			g.par[n], g.nm[n] = toInt(a[2]), a[3].(string)
+		}
+	case "rename":
+		if ok {
+			g.nm[toInt(a[1])] = a[2].(string)
+		}
+	case "wstat":
+		if f := toInt(a[1]); ok && a[2].(string) != "" && g.fidAt[f] > 0 {
+			g.nm[g.fidAt[f]] = a[2].(string)
 		}
 	case "rm":
 		if n := toInt(a[1]); g.status[n] == 1 {
@@ -256,6 +266,7 @@ func (g *genState) absorb(a []any, o map[string]any) {
 		if ok {
 			f, n := toInt(a[1]), toInt(a[2])
 			g.status[n], g.isdir[n], g.hasops[n] = 1, toBool(a[4]), true
+			g.par[n], g.nm[n] = g.fidAt[f], a[3].(string)
 			g.fidAt[f], g.fidOp[f] = n, []string{"r", "w", "rw", "x"}[toInt(a[6])%4]
 		}
 	case "dread":
@@ -339,10 +350,18 @@ func (g *genState) next() []any {
 				k = rng.Intn(5)
 			}
 			names := []any{}
+			cur := g.fidAt[f]
 			for i := 0; i < k; i++ {
-				if rng.Intn(5) == 0 {
+				kids := g.nodesWith(func(n int) bool { return g.status[n] == 1 && g.par[n] == cur && n != 1 })
+				switch x := rng.Intn(10); {
+				case x == 0:
 					names = append(names, "..")
-				} else {
+					cur = g.par[cur]
+				case x < 8 && len(kids) > 0:
+					c := g.pick(kids)
+					names = append(names, g.nm[c])
+					cur = c
+				default:
 					names = append(names, g.name())
 				}
 			}
@@ -446,10 +465,11 @@ func TestFsrvRandom(t *testing.T) {
 	r := newRunner(t, "fsrv-random")
 	seed := int64(envInt("VERIF_SEED", 1))
 	for id := 1; id <= gc.Cases; id++ {
-		g := &genState{rng: rand.New(rand.NewSource(seed*1000003 + int64(id))), cfg: r.cfg, names: gc.Names, users: gc.Users, groups: gc.Groups,
+		g := &genState{rng: rand.New(rand.NewSource(seed*1000003 + int64(id)*2 + int64(toInt(r.cfg.Dotu)))), cfg: r.cfg, names: gc.Names, users: gc.Users, groups: gc.Groups,
 			left: gc.Steps, status: make([]int, r.cfg.NNodes+1), isdir: make([]bool, r.cfg.NNodes+1), hasops: make([]bool, r.cfg.NNodes+1),
-			fidAt: make([]int, r.cfg.NFids+1), fidOp: make([]string, r.cfg.NFids+1), fidRd: make([]bool, r.cfg.NFids+1)}
-		g.status[1], g.isdir[1], g.hasops[1] = 1, true, true
+			fidAt: make([]int, r.cfg.NFids+1), fidOp: make([]string, r.cfg.NFids+1), fidRd: make([]bool, r.cfg.NFids+1),
+			par: make([]int, r.cfg.NNodes+1), nm: make([]string, r.cfg.NNodes+1)}
+		g.status[1], g.isdir[1], g.hasops[1], g.par[1] = 1, true, true, 1
 		r.run(id, nil, func(h *H, last []any, obs map[string]any) []any {
 			g.absorb(last, obs)
 			if g.left == 0 {
@@ -550,7 +570,7 @@ func TestFsrvHostile(t *testing.T) {
 			continue
 		}
 		bad := func(what string) {
-			r.rep.Violations = append(r.rep.Violations, Violation{Key: "x01:hostile-read:" + what + ":" + p.name,
+			r.rep.Violations = append(r.rep.Violations, Violation{Key: "x01:hostile-read:" + what + ":" + strings.SplitN(p.name, ":count=", 2)[0],
 				What: "directory read outside the offset rule: " + what, Replay: map[string]any{"engine": "TestFsrvHostile", "probe": p.name}})
 		}
 		func() {
